@@ -361,13 +361,22 @@ pub struct PosSpec {
     pub form: u8,
 }
 pub fn position_text(ps: &PosSpec) -> Option<(String, Pos)> {
-    let (start, moves) = play_walk(&ps.walk)?;
+    let (start, mut moves) = play_walk(&ps.walk)?;
     let mut p = start.clone();
     for m in &moves {
         p = p.apply(m);
     }
+    // forms 3 and 4: the game ends with two or three out-and-back cycles, so the current position
+    // occurs for the third or fourth time (move-list forms only)
+    if ps.form >= 3 {
+        if let Some(c) = find_cycle(&p, 12_345, 54_321) {
+            for _ in 0..(ps.form - 1) {
+                moves.extend(c);
+            }
+        }
+    }
     let names: Vec<String> = moves.iter().map(mv_name).collect();
-    let text = match ps.form % 3 {
+    let text = match if ps.form >= 3 { 1 } else { ps.form % 3 } {
         0 => format!("position fen {}", p.fen()),
         _ if start == Pos::startpos() && ps.form % 3 == 2 => {
             if names.is_empty() {
@@ -394,7 +403,7 @@ pub fn pos_spec_strategy() -> impl Strategy<Value = PosSpec> {
     // near-mate placements: few men, forced lines - the search exhausts all its iterations within
     // milliseconds there, so the answer must still wait for the planned time
     let tiny_tree = (placement_near_mate().prop_map(Start::Placement), proptest::collection::vec(any::<u16>(), 0..3)).prop_map(|(start, choices)| WalkRecipe { start, choices });
-    (prop_oneof![5 => gamelike_walk_strategy(50), 2 => promo_rich_walk(), 2 => endgame_walk_strategy(30), 2 => tiny_tree], 0u8..3).prop_map(|(walk, form)| PosSpec { walk, form })
+    (prop_oneof![5 => gamelike_walk_strategy(50), 2 => promo_rich_walk(), 2 => endgame_walk_strategy(30), 2 => tiny_tree], prop_oneof![6 => 0u8..3, 1 => 3u8..5]).prop_map(|(walk, form)| PosSpec { walk, form })
 }
 
 #[derive(Debug, Clone)]
